@@ -7,9 +7,19 @@
     enabled drivers with different errors.  [vguard_b]: queries of one address
     agree on spec validity (true for every history when all enable heights are
     0).  [valid_agree]: nil/non-nil equals the spec's, for CheckAddress and for
-    dapp.CheckAddress at heights where both pre-fork exceptions are off. *)
+    dapp.CheckAddress at heights where both pre-fork exceptions are off.
+
+    TransactionCache part (ModelTx.v / SpecTx.v): [trun tc [] ops] = the answers
+    of a history of Check / CheckSign / GetTotalFee calls on fresh wrapper
+    objects (plus memo-free calls on bare transactions); [tspec tc o] = the
+    pure verdict of (wrapped transaction, arguments, configuration);
+    [sticky_run] = the verdict of the first call of the same method on the same
+    wrapper; [tguard_b] = all calls of one method on one wrapper have the same
+    spec verdict; [single_use_b] = no method is called twice on a wrapper (the
+    mempool's use). *)
 From Coq Require Import List ZArith NArith Bool Permutation.
 From C33 Require Import C19.Model C19.Spec C19.ProofsLoop C19.ProofsLru C19.ProofsHist C19.ProofsRefute.
+From C33 Require Import C19.ModelTx C19.SpecTx C19.ProofsTx C19.ProofsTx2 C19.ProofsTx3.
 Import ListNotations.
 Open Scope Z_scope.
 
@@ -111,3 +121,91 @@ Theorem C19_vguard_satisfiable :
   /\ forallb (vclaim cfg_default) vguarded_ops = true.
 Proof. exact vguard_satisfiable. Qed.
 Print Assumptions C19_vguard_satisfiable.
+
+(** ** types.TransactionCache: the first verdict of Check / CheckSign sticks *)
+
+Theorem C19_txcache_first_verdict_sticks : forall tc ops,
+  trun tc [] ops = sticky_run tc [] ops.
+Proof. exact first_verdict_sticks. Qed.
+Print Assumptions C19_txcache_first_verdict_sticks.
+
+Theorem C19_txcache_history_independent_partial : forall tc ops,
+  tguard_b tc ops = true -> trun tc [] ops = map (tspec tc) ops.
+Proof. exact txcache_partial. Qed.
+Print Assumptions C19_txcache_history_independent_partial.
+
+(** the guard is also necessary: it is exactly the set of histories on which
+    the wrappers answer the spec *)
+Theorem C19_txcache_guard_is_exact : forall tc ops,
+  trun tc [] ops = map (tspec tc) ops <-> tguard_b tc ops = true.
+Proof. exact txcache_iff. Qed.
+Print Assumptions C19_txcache_guard_is_exact.
+
+Theorem C19_txcache_single_use_exact : forall tc ops,
+  single_use_b ops = true -> trun tc [] ops = map (tspec tc) ops.
+Proof. exact txcache_single_use. Qed.
+Print Assumptions C19_txcache_single_use_exact.
+
+Theorem C19_txcache_refuted : ~ txcache_history_independent_full.
+Proof. exact txcache_refuted. Qed.
+Print Assumptions C19_txcache_refuted.
+
+Theorem C19_txcache_sign_refuted : ~ txcache_sign_independent_full.
+Proof. exact txcache_sign_refuted. Qed.
+Print Assumptions C19_txcache_sign_refuted.
+
+Theorem C19_txcache_check_refuted : ~ txcache_check_independent_full.
+Proof. exact txcache_check_refuted. Qed.
+Print Assumptions C19_txcache_check_refuted.
+
+Theorem C19_txcache_witness_answers :
+  trun tc_w [] [TSign 0%N 5; TSign 0%N 20] = [TABool false; TABool false]
+  /\ map (tspec tc_w) [TSign 0%N 5; TSign 0%N 20] = [TABool false; TABool true]
+  /\ trun tc_w [] [TSign 0%N 20; TSign 0%N 5] = [TABool true; TABool true]
+  /\ trun tc_w [] [TCheck 0%N 20 0 0; TCheck 0%N 20 200000 0] = [TAErr TNil; TAErr TNil]
+  /\ map (tspec tc_w) [TCheck 0%N 20 0 0; TCheck 0%N 20 200000 0] = [TAErr TNil; TAErr TFeeLow]
+  /\ trun tc_w [] [TCheck 0%N 5 100000 50000; TCheck 0%N 20 100000 50000] = [TAErr TNil; TAErr TNil]
+  /\ map (tspec tc_w) [TCheck 0%N 5 100000 50000; TCheck 0%N 20 100000 50000] = [TAErr TNil; TAErr TFeeHigh].
+Proof. exact txcache_witness_answers. Qed.
+Print Assumptions C19_txcache_witness_answers.
+
+Theorem C19_txcache_guard_satisfiable :
+  tguard_b tc_w guarded_tops = true
+  /\ single_use_b guarded_tops = false
+  /\ trun tc_w [] guarded_tops = map (tspec tc_w) guarded_tops
+  /\ tspec tc_w (TSign 0%N 12) = TABool true /\ tspec tc_w (TSign 1%N 5) = TABool false
+  /\ tspec tc_w (TCheck 1%N 20 200000 0) = TAErr TFeeLow.
+Proof. exact txcache_guard_satisfiable. Qed.
+Print Assumptions C19_txcache_guard_satisfiable.
+
+Theorem C19_txcache_single_use_satisfiable :
+  single_use_b single_use_tops = true
+  /\ map (tspec tc_w) single_use_tops
+     = [TAErr TNil; TABool false; TAErr TFeeLow; TABool true; TAFee TNil 3; TAFee TNil 4].
+Proof. exact txcache_single_use_satisfiable. Qed.
+Print Assumptions C19_txcache_single_use_satisfiable.
+
+(** ** the signature gate: crypto.Load(name, height) *)
+
+Theorem C19_sign_gate_exact : forall tc d h,
+  load_ok tc d h = true <->
+  exists en eh, assocC d (tc_cry tc) = Some (en, eh) /\ (h < 0 \/ (en = true /\ 0 <= eh <= h)).
+Proof. exact load_ok_exact. Qed.
+Print Assumptions C19_sign_gate_exact.
+
+Theorem C19_sign_valid_monotone : forall tc s h h',
+  0 <= h <= h' -> tx_sign tc s h = true -> tx_sign tc s h' = true.
+Proof. exact tx_sign_mono. Qed.
+Print Assumptions C19_sign_valid_monotone.
+
+Theorem C19_sign_same_side : forall tc s h h',
+  same_side tc h h' = true -> tx_sign tc s h = tx_sign tc s h'.
+Proof. exact tx_sign_same_side. Qed.
+Print Assumptions C19_sign_same_side.
+
+Theorem C19_txsign_refines_check_sign : forall tc c m k ty okv h,
+  m_sig m = Some k -> tc_sig tc k = Some (ty, okv) ->
+  c_sig c k = Some (crypto_id ty, okv) -> c_cry c = tc_cry tc ->
+  msign tc h m = check_sign c k h.
+Proof. exact msign_refines_check_sign. Qed.
+Print Assumptions C19_txsign_refines_check_sign.
